@@ -290,7 +290,7 @@ func concCase(prop string, r *rng, tier string) {
 				if a <= uint64(n) {
 					hs = append(hs, a)
 				}
-				if r.chance(1, 2) && a > 1 {
+				if r.chance(1, 2) && a > 1 && a-1 <= uint64(n) {
 					hs = append(hs, a-1)
 				}
 			default:
